@@ -15,7 +15,7 @@ func notYet(id string) {
 }
 
 func init() {
-	for _, id := range []string{"C08"} {
+	for _, id := range []string{} {
 		notYet(id)
 	}
 	claim("C06", "other",
@@ -90,4 +90,5 @@ func init() {
 	claim("C03", "other", "(in progress) parser path rules", "", "typestate dataflow over SSA paths", "DESIGN.md 4/C03", "in progress")
 	claim("C04", "other", "(in progress) scope pairing rules", "", "typestate dataflow over SSA paths", "DESIGN.md 4/C04", "in progress")
 	claim("C05", "other", "(in progress)", "", "dominance rules on SSA", "DESIGN.md 4/C05", "in progress")
+	claim("C08", "other", "(in progress)", "", "typestate rules on SSA", "DESIGN.md 4/C08", "in progress")
 }
